@@ -65,6 +65,8 @@ type c08Scenario struct {
 	// storage so slow that a heartbeat leaves the lock file empty for Gap between truncate and write
 	Gap time.Duration `json:"gap_ns,omitempty"`
 	Tol time.Duration `json:"tol_ns,omitempty"` // time tolerance of the comparison, default c08Tol
+	// NamesClass != "": additionally emit the scenario as a names case of this class (no pre-made file)
+	NamesClass string `json:"names_class,omitempty"`
 }
 
 type c08ThreadObs struct {
@@ -382,6 +384,9 @@ func c08Run(tmproot string, sc c08Scenario) (*c08Result, error) {
 const (
 	c08Tol = 450 * time.Millisecond
 	c08Jit = 60 * time.Millisecond
+	// a Lock call that is not blocked returns well within this; a blocked one waits at least
+	// fileLockPollInterval (1 s)
+	c08Prompt = 800 * time.Millisecond
 )
 
 // c08Emit writes one case per lock file of the scenario.
@@ -439,6 +444,7 @@ func c08Emit(w *emit.Writer, res *c08Result) {
 		}
 		sort.SliceStable(evs, func(i, j int) bool { return evs[i].T < evs[j].T })
 		e := &emit.Enc{}
+		e.Int(0) // case kind 0: one lock file of a scenario
 		switch sc.Pre.Kind {
 		case "absent":
 			e.Int(0)
@@ -488,6 +494,45 @@ func c08Emit(w *emit.Writer, res *c08Result) {
 		w.Add(emit.Case{Desc: map[string]any{"kind": "scenario", "class": class, "scenario": sc.Name, "wall_s": res.Duration.Seconds()},
 			In: sc, Obs: map[string]any{"threads": obs, "kills_ns": res.KillAt, "events": evs, "horizon_ns": hz},
 			Wire: e.String(), Nontrivial: nt, Key: sc.Name + fmt.Sprint(gi)})
+	}
+	// case kind 1: "distinct names never block each other" over the whole scenario
+	if sc.NamesClass != "" {
+		e := &emit.Enc{}
+		e.Int(1).Str("/r")
+		type nobs struct {
+			Tid     int    `json:"tid"`
+			Name    string `json:"name"`
+			File    string `json:"lock_file"`
+			Start   int64  `json:"start_ns"`
+			Outcome int    `json:"outcome"`
+			Ret     int64  `json:"ret_ns"`
+		}
+		var ns []nobs
+		for _, th := range sc.Threads {
+			o := res.Obs[th.Tid]
+			if !o.started || o.Start > hz {
+				continue
+			}
+			out, ret := o.Outcome, o.Ret
+			if !o.returned || o.Ret > hz {
+				out, ret = -1, hz
+			}
+			ns = append(ns, nobs{th.Tid, th.Name, certmagic.VerifLockFilename(fs, th.Name), o.Start, out, ret})
+		}
+		e.Len(len(ns))
+		blocked := 0
+		for _, n := range ns {
+			e.Str(n.Name).Str(n.File).Z(n.Start).Int(n.Outcome).Z(n.Ret)
+			if n.Outcome != 0 || n.Ret-n.Start > int64(c08Prompt) {
+				blocked++
+			}
+		}
+		e.Z(int64(c08Prompt))
+		w.Hist("class=" + sc.NamesClass)
+		w.Hist(fmt.Sprintf("names_blocked_threads=%d", blocked))
+		w.Add(emit.Case{Desc: map[string]any{"kind": "names", "class": sc.NamesClass, "scenario": sc.Name, "wall_s": res.Duration.Seconds()},
+			In: sc, Obs: map[string]any{"threads": ns, "prompt_ns": int64(c08Prompt)},
+			Wire: e.String(), Nontrivial: len(order) >= 2, Key: sc.Name + "/names"})
 	}
 }
 
@@ -583,11 +628,25 @@ func c08Scenarios(tier string, r *rand.Rand) []c08Scenario {
 			Threads: []c08Thread{{Tid: 0, Name: n, StartAt: 0, HoldFor: c08ms(2000)}, {Tid: 1, Name: n, StartAt: c08ms(250), HoldFor: c08ms(350), CancelAt: long},
 				{Tid: 2, Name: n, StartAt: c08ms(500), HoldFor: c08ms(350), CancelAt: long}, {Tid: 3, Name: n, StartAt: c08ms(750), HoldFor: c08ms(350), CancelAt: long}},
 			Horizon: c08ms(6000)},
-		{Name: "names-safe-collision-and-distinct", Class: "names",
+		// names that Safe maps to one lock file block each other although they are distinct (known
+		// finding C08-safe-collision); a-b and *.b have files of their own
+		{Name: "names-safe-collision", Class: "names", NamesClass: "names-safe-collision",
 			Threads: []c08Thread{{Tid: 0, Name: "a+b", StartAt: 0, HoldFor: c08ms(2500)}, {Tid: 1, Name: "a_plus_b", StartAt: c08ms(300), HoldFor: c08ms(100), CancelAt: c08ms(1500)},
 				{Tid: 2, Name: "A_Plus_B ", StartAt: c08ms(350), HoldFor: c08ms(100), CancelAt: c08ms(1450)}, {Tid: 3, Name: "a-b", StartAt: c08ms(300), HoldFor: c08ms(100), CancelAt: c08ms(1500)},
 				{Tid: 4, Name: "*.b", StartAt: c08ms(320), HoldFor: c08ms(100), CancelAt: c08ms(1500)}},
 			Horizon: c08ms(3000)},
+		// distinct names with distinct Safe images (several need sanitizing), goroutines and processes,
+		// all at once and held for a while: nobody waits; the one repeated name does
+		{Name: "names-distinct", Class: "names", NamesClass: "names-distinct",
+			Threads: []c08Thread{{Tid: 0, Name: "issue_cert_example.com", StartAt: c08ms(100), HoldFor: c08ms(1500)},
+				{Tid: 1, Name: "issue_cert_example.org", StartAt: c08ms(150), HoldFor: c08ms(1500)},
+				{Tid: 2, Pid: 1, Name: "issue_cert_*.example.com", StartAt: c08ms(200), HoldFor: c08ms(1500)},
+				{Tid: 3, Name: "issue_cert_wildcard.example.com", StartAt: c08ms(250), HoldFor: c08ms(1500)},
+				{Tid: 4, Pid: 2, Name: "Issue Cert/Ex Ample:8443", StartAt: c08ms(300), HoldFor: c08ms(1500)},
+				{Tid: 5, Name: "../a\\b", StartAt: c08ms(350), HoldFor: c08ms(1500)},
+				{Tid: 6, Name: "issue_cert_example.com", StartAt: c08ms(400), HoldFor: c08ms(200), CancelAt: long},
+				{Tid: 7, Name: "issue_cert_example.co", StartAt: c08ms(450), HoldFor: c08ms(1000)}},
+			Horizon: c08ms(4500)},
 		{Name: "three-processes", Class: "multi-process",
 			Threads: []c08Thread{{Tid: 0, Pid: 1, Name: n, StartAt: c08ms(150), HoldFor: c08ms(600)}, {Tid: 1, Pid: 2, Name: n, StartAt: c08ms(350), HoldFor: c08ms(600), CancelAt: long},
 				{Tid: 2, Pid: 3, Name: n, StartAt: c08ms(550), HoldFor: c08ms(600), CancelAt: long}},
